@@ -424,7 +424,7 @@ func ruleRecState(c *Ctx) {
 	// that was scanned last; it becomes the current record's fields at the moment that record is taken
 	// (execActions, right after nextLine). Reading it later - lazily, when a field is first needed - hands
 	// over whatever record a getline has scanned since.
-	if _, st := c.structType("interp", "interp"); st != nil && fieldByName(st, "csvFields") != nil {
+	if _, st := c.structType("interp", "interp"); st != nil && interpStructHasField(st, "csvFields", 0) {
 		var readers []string
 		var badPos token.Pos
 		for _, fn := range fns {
@@ -484,7 +484,7 @@ func ruleRecState(c *Ctx) {
 			}
 			seen[f] = true
 			for fld := range byFn[f] {
-				if !lazy[fld] && resetScratch[fld] == "" && !(name == "interp.getFieldByName" && fld == "fieldIndexes") {
+				if !lazy[fld] && resetScratch[fld] == "" && !(name == "interp.getFieldByName" && fld == "fieldIndexes") && !lazyIndexField(f, fld) {
 					bad[fld] = fnKey(f)
 				}
 			}
@@ -1011,4 +1011,71 @@ func mayBeNilError(v ssa.Value, b *ssa.BasicBlock) bool {
 		return false
 	}
 	return true
+}
+
+// interpStructHasField: the interpreter struct, or one of its component structs (ssahelp.go isInterp), has the field.
+func interpStructHasField(st *types.Struct, name string, depth int) bool {
+	if st == nil || depth > 3 {
+		return false
+	}
+	for i := 0; i < st.NumFields(); i++ {
+		f := st.Field(i)
+		if f.Name() == name {
+			return true
+		}
+		if inner, ok := f.Type().Underlying().(*types.Struct); ok && isInterp(f.Type()) {
+			if interpStructHasField(inner, name, depth+1) {
+				return true
+			}
+		}
+	}
+	return false
+}
+
+// lazyIndexField: in f the map-typed interpreter field fld is a look-up index built on first use: every store of the
+// field is made under a test `fld == nil` (true edge), everything else f does to it is filling the map.
+func lazyIndexField(f *ssa.Function, fld string) bool {
+	guarded, other := 0, 0
+	allInstrs(f, func(in ssa.Instruction) {
+		name, _ := interpFieldStore(in)
+		if name != fld {
+			return
+		}
+		st := in.(*ssa.Store)
+		fv, _ := fieldOfAddr(st.Addr)
+		if fv == nil {
+			other++
+			return
+		}
+		if _, isMap := fv.Type().Underlying().(*types.Map); !isMap {
+			other++
+			return
+		}
+		ok := false
+		for _, g := range f.Blocks {
+			if len(g.Instrs) == 0 || !g.Dominates(in.Block()) || g == in.Block() {
+				continue
+			}
+			ifi, isIf := g.Instrs[len(g.Instrs)-1].(*ssa.If)
+			if !isIf {
+				continue
+			}
+			bo, isBo := ifi.Cond.(*ssa.BinOp)
+			if !isBo || !isNilConst(bo.Y) || interpFieldLoad(bo.X) != fld {
+				continue
+			}
+			if bo.Op == token.EQL && !reachableAvoiding(g.Succs[1], g)[in.Block()] {
+				ok = true
+			}
+			if bo.Op == token.NEQ && !reachableAvoiding(g.Succs[0], g)[in.Block()] {
+				ok = true
+			}
+		}
+		if ok {
+			guarded++
+		} else {
+			other++
+		}
+	})
+	return guarded > 0 && other == 0
 }
